@@ -37,7 +37,7 @@ ASSUMPTIONS = [
 
 def run(ctx: Ctx):
   m = model(ctx)
-  for r in (r1, r2, r3, r4, r5, r7, r8):
+  for r in (r1, r2, r3, r4, r5, r7, r8, r9):
     ctx.guard(r, m)
   from mlmverif.props import c04
   ctx.include('R-C05-6', '"never an indefinite wait": the queue\'s monitor'
@@ -555,10 +555,79 @@ def r8(ctx: Ctx, m):
   ctx.floor(rule, 3, n)
 
 
+def r9(ctx: Ctx, m):
+  rule = 'R-C05-9'
+  ctx.rule(rule, 'a stop request is sticky: maybe_stop stores, on every path, a'
+           ' flag that nothing outside the constructor ever resets and under'
+           ' which enqueue_done answers True — encoding the stop only in the'
+           ' producer counters is undone by a producer that starts afterwards'
+           ' (_start_enqueue increments them), so queued pool tasks resume'
+           ' producing after the stop and the pool never shuts down')
+  ms = m.method('maybe_stop')
+  g = cfgm.cfg_of(ms.node)
+  done = m.repo.find_method(m.qcls, 'enqueue_done')
+  if done is None:
+    raise AnalysisError(f'{rule}: enqueue_done not found')
+  cands = {}
+  for n in g.nodes:
+    if n.kind == 'stmt' and isinstance(n.ast, ast.Assign) and isinstance(n.ast.value, ast.Constant) and (
+        n.ast.value.value is True):
+      for t in n.ast.targets:
+        if is_self_attr(t):
+          cands.setdefault(t.attr, []).append(n)
+  sticky = None
+  why = []
+  for f, nodes in cands.items():
+    w = g.must_pass(g.entry, [g.exit_ret], lambda n, nodes=nodes: n in nodes, cfgm.only_normal)
+    if w is not None:
+      why.append(f'`{f}` is not stored on every path of maybe_stop')
+      continue
+    resets = [fi.qualname for fi in m.methods() if fi.name not in ('__init__', 'maybe_stop')
+              for x in walk_no_nested(fi.node) if isinstance(x, (ast.Assign, ast.AugAssign))
+              for t in (x.targets if isinstance(x, ast.Assign) else [x.target]) if is_self_attr(t, f)]
+    if resets:
+      why.append(f'`{f}` is also stored by {sorted(set(resets))}')
+      continue
+    forces = False
+    for x in ast.walk(done.node):
+      if isinstance(x, ast.If) and any(is_self_attr(y, f) for y in ast.walk(x.test)) and not any(
+          isinstance(y, ast.Not) for y in ast.walk(x.test)) and x.body and isinstance(
+              x.body[0], ast.Return) and isinstance(x.body[0].value, ast.Constant) and x.body[0].value.value is True:
+        forces = True
+      if isinstance(x, ast.Return) and isinstance(x.value, ast.BoolOp) and isinstance(x.value.op, ast.Or) and any(
+          is_self_attr(v, f) for v in x.value.values):
+        forces = True
+    if not forces:
+      why.append(f'enqueue_done does not answer True under `{f}`')
+      continue
+    sticky = f
+  if sticky:
+    ctx.ok(rule, ms, f'maybe_stop sets the sticky flag `{sticky}`; enqueue_done honours it', ms.node)
+  else:
+    ctx.fail(rule, ms, 'IteratorQueue.maybe_stop: sticky stop flag honoured by enqueue_done',
+             'a plain stop request is recorded only by forcing the producer'
+             ' counters (_enqueue_start/_enqueue_stop = _max_enqueuer); a'
+             ' producer that starts afterwards increments them again and'
+             ' enqueue_done turns False: with more sources than pool threads the'
+             ' queued producers start after the stop, fill the queue nobody'
+             ' drains and ThreadPoolExecutor.shutdown() never returns'
+             + (' (' + '; '.join(why) + ')' if why else ''), node=ms.node)
+  ctx.floor(rule, 1, 1)
+
+
 from mlmverif.selfcheck import B, OK  # noqa: E402
 
 _F = 'utils/iter_utils.py'
 VARIANTS = [
+    B('revert-sticky-stop-flag', _F,
+      '      self._stop_requested = True\n      self._enqueue_stop = self._enqueue_start = self._max_enqueuer',
+      '      self._enqueue_stop = self._enqueue_start = self._max_enqueuer', 'R-C05-9'),
+    B('sticky-flag-not-honoured', _F, '    if self._exception or self._stop_requested:\n      return True',
+      '    if self._exception:\n      return True', 'R-C05-9'),
+    B('sticky-flag-reset-on-start', _F, '      self._enqueue_start += 1\n',
+      '      self._enqueue_start += 1\n      self._stop_requested = False\n', 'R-C05-9'),
+    OK('sticky-flag-as-disjunct', _F, '    if self._exception or self._stop_requested:\n      return True',
+       '    if self._exception:\n      return True\n    if self._stop_requested:\n      return True'),
     B('async-queue-drops-timeout', _F,
       '        name=name,\n        timeout=timeout,\n        ignore_error=ignore_error,\n        max_batch_size=max_batch_size,\n    )\n    self._thread_pool = thread_pool',
       '        name=name,\n        ignore_error=ignore_error,\n        max_batch_size=max_batch_size,\n    )\n    self._thread_pool = thread_pool',
@@ -609,7 +678,8 @@ VARIANTS = [
       '        self._dequeue_lock.notify_all()\n      else:\n        self._dequeue_lock.notify_all()',
       'R-C05-5'),
     B('enqueue-done-ignores-exception', _F,
-      '    if self._exception:\n      return True\n', '', 'R-C05-1'),
+      '    if self._exception or self._stop_requested:\n      return True\n',
+      '    if self._stop_requested:\n      return True\n', 'R-C05-1'),
     B('dequeue-iter-budget-no-stop', _F,
       '      self.maybe_stop()\n      raise StopIteration()\n    if not self._cache:',
       '      raise StopIteration()\n    if not self._cache:', 'R-C05-5'),
